@@ -335,10 +335,14 @@ func (s *Service) onRouteResp(ctx context.Context, peer p2p.Peer, stream p2p.Str
 func (s *Service) respForward(ctx context.Context, target, last boson.Address, resp *pb.RouteResp) {
 	res := s.pendingCalls.Get(target, last)
 	skip := make([]boson.Address, 0)
+	// doRouteResp extends resp.Paths in place: every requester must get the
+	// received paths extended by this node exactly once
+	received := resp.Paths
 	for _, v := range res {
 		if !v.Src.Equal(s.self) {
 			if !v.Src.MemberOf(skip) {
 				// forward
+				resp.Paths = received
 				s.doRouteResp(ctx, v.Src, target, last, resp, nil)
 				skip = append(skip, v.Src)
 			}
